@@ -26,6 +26,7 @@ package internal
 //@           invariant forall i int :: 0 <= i && i <= rangeindex ==> bytes(details[i].Value) == atpre(bytes(cdAny[ceDetails[err][i]].Value))
 
 //@ func ConvertProtoToConnectError
+//@   dead "return connect.NewError(connect.CodeInternal, err)" //# NewErrorDetail cannot fail on an *anypb.Any (assumed contract)
 //@   modifies ceCode, ceMsg, ceDetails, cdAny, []*connect.ErrorDetail
 //@   ensures @nil (err == nil) == (result == nil)
 //@   ensures @code err != nil && err.Code >= 0 ==> ceCode[result] == err.Code
